@@ -422,9 +422,13 @@ class DisjunctionMaxMatcher(UnionMatcher):
             sk = 0
             if aq <= minquality:
                 sk += a.skip_to_quality(minquality)
+                if not a.is_active():
+                    break
                 aq = a.block_quality()
             if bq <= minquality:
                 sk += b.skip_to_quality(minquality)
+                if not b.is_active():
+                    break
                 bq = b.block_quality()
             skipped += sk
             if not sk:
